@@ -1321,7 +1321,7 @@ class Gen:
         fmt = r.choice(self.cfg["formats"])
         save = self.cfg["p_ref"]
         self.cfg["p_ref"] = 0.0
-        shared = self.spec(r.choice([0, 0, 1]))
+        shared = self.spec(r.choice([0, 0, 1]) if self.cfg["prop"] == "C04" else r.choice([1, 1, 2]))
         other = self.spec(0)
         self.cfg["p_ref"] = save
         ref = {"ref": {"h": s, "path": []}}
@@ -1337,6 +1337,16 @@ class Gen:
         else:
             tree = {"c": "Pair", "p": {}, "ch": {"left": {"c": "Seq", "p": {}, "ch": {"items": [ref]}, "o": o}, "right": ref}, "o": o}
         opts = r.choice([None, None, "idx"])
+        if self.cfg["prop"] != "C04":
+            # the duplicate of a tree that holds one node object (with descendants) at several positions
+            self.script = [
+                lambda a: {"op": "construct", "spec": shared, "out": s},
+                lambda a: {"op": "construct", "spec": tree, "out": t} if s in w.handles else None,
+                lambda a: {"op": "duplicate", "n": {"h": t, "path": []}, "out": self.out()} if t in w.handles else None,
+                lambda a: {"op": "obs", "what": "eq", "n": {"h": t, "path": []}, "m": {"h": s, "path": []}} if t in w.handles and s in w.handles else None,
+            ]
+            w.stats.probes["shared_script_started"] += 1
+            return
         self.script = [
             lambda a: {"op": "construct", "spec": shared, "out": s},
             lambda a: {"op": "construct", "spec": tree, "out": t} if s in w.handles else None,
@@ -1410,6 +1420,9 @@ class Gen:
             return
         if self.cfg["prop"] in ("C03", "C14") and r.random() < 0.3:
             self.start_id_repeat_script(actor)
+            return
+        if self.cfg["prop"] in ("C14", "C10") and r.random() < 0.3:
+            self.start_shared_script(actor)
             return
         if self.cfg["prop"] in ("C14", "C10") and r.random() < 0.3:
             self.start_eq_history_script(actor)
@@ -1677,7 +1690,9 @@ class Gen:
             elif bad == "illtyped_child":
                 op["ch"] = {"left": {"raw": "not a node"}}
             else:
-                op["ch"] = {"a": {"v": self.value("str")}}
+                # (half of the time only the non-comparable field changes: the replacement then takes the very id the
+                # original has just vacated, and the failure comes after it was registered)
+                op["ch"] = {"a": {"v": self.value("str")}} if r.random() < 0.5 else {"memo": {"v": self.value("str")}}
                 op["fault"] = {"site": "post_init_pre" if bad == "boom_pre" else "post_init_post", "k": 1}
             return op
         if cls == "Boom":
